@@ -243,12 +243,19 @@ func ApplyAuditLogParts(base AuditLogParts, modification string) (AuditLogParts,
 		}
 	}
 
-	// Convert map back to slice, maintaining the canonical order
+	// Convert map back to slice, maintaining the canonical order. The mandatory header and end marker of the base
+	// value are not in orderedAuditLogParts: they are kept where they were, first and last.
 	result := make([]AuditLogPart, 0, len(partsMap))
+	if _, ok := partsMap[AuditLogPartHeader]; ok {
+		result = append(result, AuditLogPartHeader)
+	}
 	for _, part := range orderedAuditLogParts {
 		if _, ok := partsMap[part]; ok {
 			result = append(result, part)
 		}
+	}
+	if _, ok := partsMap[AuditLogPartEndMarker]; ok {
+		result = append(result, AuditLogPartEndMarker)
 	}
 
 	return AuditLogParts(result), nil
